@@ -612,28 +612,40 @@ def cycles_are_cut(F, res, sccs=None, rule="Q10"):
         return not why, "; ".join(why) or "%d module_scope calls and %d name insertions, each behind the import_closure test (%d tests)" % (len(asks), len(ins), len(tests))
 
     def infer_cut():
+        ASK = ("hir::Function::ty", "TyDatabase::infer_function", "TyDatabase::infer_function_group")
+
+        def group_gated(fn_, d_, b):
+            for g in FL.gates(F, fn_, [b], d_):
+                gc = FL.short(g.get("callee") or "")
+                if gc.rsplit("::", 1)[-1] in ("find", "position", "contains", "any") and g["allowed"] in (["None"], [False]) and g.get("call_t"):
+                    dep = FL.fields_feeding(F, fn_, d_, g["call_t"]["args"][0], "InferCtx") if g["call_t"]["args"] else set()
+                    if "group" in {str(x).rsplit(".", 1)[-1] for x in dep}:
+                        return True
+            return False
+        methods = {p: f for p, f in F.fns.items() if p.startswith("ide::ty::infer::InferCtx") and f.blocks}
         why, n = [], 0
-        for p, f in sorted(F.fns.items()):
-            if not p.startswith("ide::ty::infer::InferCtx") or not f.blocks:
-                continue
-            d = None
+
+        def check_site(p, f, b, t, depth):
+            """a site that asks for another function's type (directly, or through a helper of InferCtx that does) is behind a
+            failed look-up in the group - or the function holding it is such a helper, and all of its call sites are"""
+            d = FL.Defs(f)
+            if group_gated(f, d, b):
+                return True
+            if depth >= 2 or "{closure" in p:
+                return False
+            sites = [(q, g, b2, t2) for q, g in methods.items() for b2, t2 in g.calls() if callee(t2) == p]
+            return bool(sites) and all(check_site(q, g, b2, t2, depth + 1) for q, g, b2, t2 in sites)
+        for p, f in sorted(methods.items()):
             for b, t in f.calls():
                 c = callee(t) or callee_def(t) or ""
-                if not (c.endswith("hir::Function::ty") or c.endswith("TyDatabase::infer_function") or c.endswith("TyDatabase::infer_function_group")):
+                if not c.endswith(ASK):
                     continue
                 n += 1
-                d = d or FL.Defs(f)
-                ok = False
-                for g in FL.gates(F, f, [b], d):
-                    gc = FL.short(g.get("callee") or "")
-                    if gc.rsplit("::", 1)[-1] in ("find", "position", "contains", "any") and g["allowed"] in (["None"], [False]):
-                        dep = FL.fields_feeding(F, f, d, g["call_t"]["args"][0], "InferCtx") if g["call_t"]["args"] else set()
-                        ok = ok or "group" in {str(x).rsplit(".", 1)[-1] for x in dep}
-                if not ok:
+                if not check_site(p, f, b, t, 0):
                     why.append("%s asks for the type of a function at line %d without having looked it up in the group being inferred" % (FL.short(p), t["ln"]))
-        if n < 2:
-            why.append("fewer than 2 type lookups of functions found in InferCtx (anchor)")
-        return not why, "; ".join(why) or "%d lookups of another function's type, each after the group was searched without success" % n
+        if n < 1:
+            why.append("no type lookups of functions found in InferCtx (anchor)")
+        return not why, "; ".join(why) or "%d lookups of another function's type, each (or every call of the helper holding it) after the group was searched without success" % n
 
     known["ModuleScopeQuery+ModuleScopeWithMapQuery"] = scope_cut
     known["InferFunctionGroupQuery+InferFunctionQuery"] = infer_cut
